@@ -223,6 +223,26 @@ func (c *Ctx) sitesDepth(fn *ssa.Function, depth int, onStack map[*ssa.Function]
 		if ws.cond.unknown {
 			ws.cond = mkDNF(pc.Must(ws.call.Block()))
 		}
+		// a plain write of a string chosen by a helper: one site per alternative
+		if !ws.isFmt && !ws.konst && ws.method == "WriteString" {
+			if call, ok := ws.arg.(*ssa.Call); ok && callee(call) != nil && c.W.InRepo(callee(call)) {
+				alts := c.stringAlts(fn, ws.arg, 0)
+				if len(alts) > 1 || (len(alts) == 1 && alts[0].konst) {
+					for k, a := range alts {
+						ns := ws
+						ns.alt = k + 1
+						ns.cond = andDNF(ws.cond, a.cond)
+						if a.konst {
+							ns.konst, ns.format = true, a.text
+						} else {
+							ns.argT = []string{a.term}
+						}
+						out = append(out, ns)
+					}
+					continue
+				}
+			}
+		}
 		for _, sp := range c.splitPhiOperand(fn, ws) {
 			foldConstOperands(&sp)
 			out = append(out, sp)
@@ -602,4 +622,89 @@ func (c *Ctx) flatReturnsDepth(fn *ssa.Function, depth int) []flatReturn {
 		out = append(out, fr)
 	}
 	return out
+}
+
+// strAlt is one value a string-valued expression can take.
+type strAlt struct {
+	konst bool
+	text  string // constant text
+	term  string // term (in the namespace of the analysed function) when not constant
+	cond  dnf    // additional condition under which this alternative is the value
+}
+
+// stringAlts lists the alternatives of a string value: a constant; a merge of alternatives
+// (non-loop φ); or the result of a small side-effect-free repo helper that returns one of
+// several strings (`func lineBreak(n, max int) string { if n >= max-1 { return "\\l" }; return "\\n" }`),
+// whose returns are followed recursively and rewritten into fn's terms. Anything else is one
+// non-constant alternative.
+func (c *Ctx) stringAlts(fn *ssa.Function, v ssa.Value, depth int) []strAlt {
+	truth := dnf{cs: []conj{{}}}
+	if s, ok := strConst(v); ok {
+		return []strAlt{{konst: true, text: s, cond: truth}}
+	}
+	if depth < 3 {
+		switch x := v.(type) {
+		case *ssa.Phi:
+			if !isLoopHeader(x.Block()) {
+				pc := c.PC(fn)
+				var out []strAlt
+				for i, e := range x.Edges {
+					pred := x.Block().Preds[i]
+					pd := pc.At(pred)
+					if pd.unknown {
+						pd = mkDNF(pc.Must(pred))
+					}
+					ec := andDNF(pd, dnf{cs: pc.edgeDNF(pred, x.Block())})
+					for _, a := range c.stringAlts(fn, e, depth+1) {
+						a.cond = andDNF(a.cond, ec)
+						out = append(out, a)
+					}
+				}
+				return out
+			}
+		case *ssa.Call:
+			g := callee(x)
+			if g != nil && g != fn && c.W.InRepo(g) && len(g.Blocks) > 0 && !x.Call.IsInvoke() && g.Signature.Results().Len() == 1 && c.T(fn).purity(g) >= purReadOnly {
+				if b, ok := g.Signature.Results().At(0).Type().Underlying().(*types.Basic); ok && b.Kind() == types.String {
+					hasLoop := false
+					for _, b := range g.Blocks {
+						if isLoopHeader(b) {
+							hasLoop = true
+						}
+					}
+					if !hasLoop {
+						pg := c.PC(g)
+						var out []strAlt
+						for _, r := range returnsOf(g) {
+							rc := pg.At(r.Block())
+							if rc.unknown {
+								rc = mkDNF(pg.Must(r.Block()))
+							}
+							for _, a := range c.stringAlts(g, r.Results[0], depth+1) {
+								cond := andDNF(a.cond, rc)
+								sc := dnf{unknown: cond.unknown}
+								for _, cj := range cond.cs {
+									var n conj
+									for _, l := range cj {
+										n = append(n, normLit(l[:1]+c.substParams(fn, x, l[1:])))
+									}
+									sort.Strings(n)
+									sc.cs = append(sc.cs, n)
+								}
+								a.cond = sc
+								if !a.konst {
+									a.term = c.substParams(fn, x, a.term)
+								}
+								out = append(out, a)
+							}
+						}
+						if len(out) > 0 {
+							return out
+						}
+					}
+				}
+			}
+		}
+	}
+	return []strAlt{{term: c.term(fn, v), cond: truth}}
 }
